@@ -7,7 +7,7 @@ from typing import Any
 from sa.cfg import CFG, Node, calls_in
 from sa.kern import make_evaluator, py_calls
 from sa.report import Ctx
-from sa.srcmodel import FuncInfo, func_body
+from sa.srcmodel import FuncInfo, func_body, inline_locals
 from sa.symterm import Env, Evaluator, Poly, Unsupported, show
 
 MOD = "moptipyapps.dynamic_control.ode"
@@ -108,36 +108,68 @@ def _retry(ctx: Ctx, ro: FuncInfo) -> None:
     head = next(n for n in cfg.nodes if n.ast is outer and n.kind == "join")
     # the counter: a name initialised to a constant before the loop and
     # compared with a constant in a test that can leave the loop
-    tests = [n for n in cfg.nodes if n.kind == "test" and isinstance(
-        n.ast, ast.Compare) and isinstance(n.ast.left, ast.Name)
-        and isinstance(n.ast.ops[0], (ast.Gt, ast.GtE))
-        and isinstance(ctx.repo.const(ro.module, n.ast.comparators[0]),
-                       int)]
+    repo = ctx.repo
+
+    def exceeds(e: ast.AST) -> tuple[str, int] | None:
+        """`name > k` in any spelling -> (name, k): True iff name > k."""
+        if not (isinstance(e, ast.Compare) and len(e.ops) == 1):
+            return None
+        l_, r_, op = e.left, e.comparators[0], e.ops[0]
+        if isinstance(l_, ast.Name) and isinstance(
+                repo.const(ro.module, r_), int):
+            k_ = repo.const(ro.module, r_)
+            if isinstance(op, ast.Gt):
+                return l_.id, k_
+            if isinstance(op, ast.GtE):
+                return l_.id, k_ - 1
+        if isinstance(r_, ast.Name) and isinstance(
+                repo.const(ro.module, l_), int):
+            k_ = repo.const(ro.module, l_)
+            if isinstance(op, ast.Lt):
+                return r_.id, k_
+            if isinstance(op, ast.LtE):
+                return r_.id, k_ - 1
+        return None
+
+    def plus_one(n: Any, nm: str) -> bool:
+        a_ = n.ast
+        if isinstance(a_, ast.AugAssign):
+            return isinstance(a_.target, ast.Name) and a_.target.id == nm \
+                and isinstance(a_.op, ast.Add) and repo.const(
+                    ro.module, a_.value) == 1
+        if isinstance(a_, ast.Assign) and len(a_.targets) == 1 and \
+                isinstance(a_.targets[0], ast.Name) and \
+                a_.targets[0].id == nm and isinstance(
+                a_.value, ast.BinOp) and isinstance(a_.value.op, ast.Add):
+            l_, r_ = a_.value.left, a_.value.right
+            return (isinstance(l_, ast.Name) and l_.id == nm and repo.const(
+                ro.module, r_) == 1) or (isinstance(
+                    r_, ast.Name) and r_.id == nm and repo.const(
+                    ro.module, l_) == 1)
+        return False
+    tests = [n for n in cfg.nodes if n.kind == "test"
+             and exceeds(n.ast) is not None]
     cand = None
     for t in tests:
-        nm = t.ast.left.id
-        incs = [n for n in cfg.nodes if n.kind == "stmt" and isinstance(
-            n.ast, ast.AugAssign) and isinstance(n.ast.target, ast.Name)
-            and n.ast.target.id == nm]
-        others = [n for n in cfg.nodes if n.kind == "stmt" and isinstance(
-            n.ast, (ast.Assign, ast.AnnAssign)) and any(
+        nm, k = exceeds(t.ast)
+        writes = [n for n in cfg.nodes if n.kind == "stmt" and isinstance(
+            n.ast, (ast.Assign, ast.AnnAssign, ast.AugAssign)) and any(
             isinstance(x, ast.Name) and x.id == nm for x in (
                 n.ast.targets if isinstance(n.ast, ast.Assign)
                 else [n.ast.target]))]
-        if len(incs) == 1 and len(others) == 1:
-            cand = (t, nm, incs[0], others[0])
+        incs = [n for n in writes if plus_one(n, nm)]
+        others = [n for n in writes if n not in incs]
+        if len(incs) == 1 and len(others) == 1 and isinstance(
+                repo.const(ro.module, others[0].ast.value), int):
+            cand = (t, nm, incs[0], others[0], k)
     if cand is None:
         ctx.ob("D10.1", ro, outer, False,
                "no cycle counter with a constant exit test found",
                construct="retry bound")
         return
-    t, nm, inc, init = cand
-    k = ctx.repo.const(ro.module, t.ast.comparators[0])
-    if isinstance(t.ast.ops[0], ast.GtE):
-        k -= 1
+    t, nm, inc, init, k = cand
     i0 = ctx.repo.const(ro.module, init.ast.value)
-    step_ok = isinstance(inc.ast.op, ast.Add) and ctx.repo.const(
-        ro.module, inc.ast.value) == 1
+    step_ok = True
     # (a) every path head -> exit-test passes the increment
     a_ok = not cfg.can_reach_avoiding(head, t, lambda n: n is inc)
     # (b) every path head -> head (next round) passes the test ...
@@ -473,39 +505,120 @@ def _rows(ctx: Ctx, ro: FuncInfo) -> None:
 
 # ------------------------------------------------------------------ D10.4
 def _failure_row(ctx: Ctx, ro: FuncInfo) -> None:
+    """After the retry loop: one row (start state, controls 1e100, time 0).
+
+    The statements behind the loop are expanded with all locals inlined and
+    the stores are compared as (row, column range) -> value, whatever views
+    or temporaries are used to write them."""
+    from sa.kern import make_evaluator, py_calls
+    from sa.pathinline import paths
+    from sa.symterm import Env, Poly, Unsupported
     body = func_body(ro)
-    tail = body[-5:]
-    src = [ast.unparse(s).replace(" ", "") for s in tail]
-    res = ast.unparse(tail[-1].value) if isinstance(
-        tail[-1], ast.Return) and tail[-1].value is not None else "result"
     start_nm = ro.params[0]
-    nn = next((
-        (s_.targets[0] if isinstance(s_, ast.Assign) else s_.target).id
-        for s_ in body if isinstance(s_, (ast.Assign, ast.AnnAssign))
-        and s_.value is not None
-        and ast.unparse(s_.value) == f"len({start_nm})"), "n")
-    dimn = next((
-        (s_.targets[0] if isinstance(s_, ast.Assign) else s_.target).id
-        for s_ in body if isinstance(s_, (ast.Assign, ast.AnnAssign))
-        and s_.value is not None and ast.unparse(s_.value).replace(
-            " ", "") in (f"{nn}+controller_dim+1",
-                         f"{nn}+{ro.params[4]}+1")), "dim")
-    want = [f"{res}=np.zeros((1,{dimn}))",
-            f"{res}[0,0:{nn}]={start_nm}",
-            f"{res}[0,{nn}:-1]=1e+100", f"{res}[0,-1]=0.0",
-            f"return{res}"]
-    ok = src == want
-    if not ok:
-        # order-insensitive comparison of the three stores
-        ok = src[0] == want[0] and src[-1] == want[-1] and \
-            sorted(src[1:4]) == sorted(want[1:4])
-    ctx.ob("D10.4", ro, tail[0], ok,
+    cd_nm = ro.params[4]
+    ev = make_evaluator(ctx.repo, ro, extra_call=py_calls)
+    env = Env()
+    n_ = Poly.atom(("app", "len", (Poly.var(start_nm),)))
+    cd_ = Poly.var(cd_nm)
+    outer = next((s_ for s_ in body if isinstance(s_, ast.While)), None)
+    tail = body[body.index(outer) + 1:] if outer is not None else body[-5:]
+    pre = paths(body[:body.index(outer)]) if outer is not None else []
+    from sa.pathinline import Path
+    start = Path(env=dict(pre[0].env)) if len(pre) == 1 else Path()
+    assigned = {n.id for n in ast.walk(outer) if isinstance(n, ast.Name)
+                and isinstance(n.ctx, ast.Store)} if outer is not None \
+        else set()
+    for k_ in list(start.env):
+        if k_ in assigned:
+            del start.env[k_]
+    ps = paths(tail, start)
+    ok = False
+    src: list[str] = []
+    res = "result"
+    if len(ps) == 1:
+        q = ps[0]
+        ret = next((e for e in q.events if e.kind == "return"), None)
+        res = ret.value.id if ret is not None and isinstance(
+            ret.value, ast.Name) else "?"
+        alloc = q.objs.get(res)
+
+        def num(e: ast.expr | None, default: Poly) -> Poly | None:
+            if e is None:
+                return default
+            try:
+                return ev.num(env, e)
+            except Unsupported:
+                return None
+
+        def where(t: ast.expr) -> tuple | None:
+            """res[0, a:b] / res[0][a:b] / res[0, k] -> (lo, hi|None)."""
+            parts: list[ast.expr] = []
+            cur = t
+            while isinstance(cur, ast.Subscript):
+                sl = cur.slice
+                parts = (list(sl.elts) if isinstance(sl, ast.Tuple)
+                         else [sl]) + parts
+                cur = cur.value
+            if not (isinstance(cur, ast.Name) and cur.id == res) or len(
+                    parts) != 2 or ctx.repo.const(
+                    ro.module, parts[0]) != 0:
+                return None
+            c = parts[1]
+            if isinstance(c, ast.Slice):
+                if c.step is not None:
+                    return None
+                return ("slice", num(c.lower, Poly.const(0)),
+                        num(c.upper, Poly.var("END")))
+            return ("cell", num(c, Poly.const(0)), None)
+        stores = {}
+        for e in q.events:
+            if e.kind == "store":
+                w = where(e.value)
+                src.append(ast.unparse(e.node).replace(" ", ""))
+                if w is None:
+                    stores["?"] = None
+                else:
+                    stores[w] = e.extra
+        shape_ok = isinstance(alloc, ast.Call) and ast.unparse(
+            alloc.func) == "np.zeros" and len(alloc.args) == 1 and \
+            isinstance(alloc.args[0], ast.Tuple) and len(
+            alloc.args[0].elts) == 2 and ctx.repo.const(
+            ro.module, alloc.args[0].elts[0]) == 1 and num(
+            alloc.args[0].elts[1], Poly.const(0)) == n_ + cd_ + \
+            Poly.const(1)
+        m1 = Poly.const(-1)
+        want = {("slice", Poly.const(0), n_): start_nm,
+                ("slice", n_, m1): 1e100, ("cell", m1, None): 0.0}
+        vals_ok = set(stores) == set(want)
+        if vals_ok:
+            for k_, w_ in want.items():
+                v = stores[k_]
+                if isinstance(w_, str):
+                    vals_ok = vals_ok and isinstance(
+                        v, ast.Name) and v.id == w_
+                else:
+                    vals_ok = vals_ok and ctx.repo.const(
+                        ro.module, v) == w_
+        ok = shape_ok and vals_ok and not [
+            e for e in q.events if e.kind in ("loop", "other", "expr")]
+    dimn = None
+    ctx.ob("D10.4", ro, tail[0] if tail else ro.node, ok,
            "failure result: one row (start state, controls 1e100, time 0)"
            if ok else f"failure row is built as {src}",
            construct="failure row")
-    dim_ok = dimn != "dim" or any(ast.unparse(s).replace(
-        " ", "").startswith("dim:Final[int]=n+controller_dim+1")
-        for s in body)
+    for s_ in body:
+        if isinstance(s_, (ast.Assign, ast.AnnAssign)) and \
+                s_.value is not None:
+            tg = s_.targets[0] if isinstance(s_, ast.Assign) else s_.target
+            try:
+                if isinstance(tg, ast.Name) and ev.num(
+                        env, ast.parse(ast.unparse(inline_locals(
+                            ro.node, s_.value)), mode="eval").body) == \
+                        n_ + cd_ + Poly.const(1):
+                    dimn = tg.id
+            except Unsupported:
+                continue
+    dim_ok = dimn is not None
     steps_nm, mt_nm = ro.params[5], ro.params[6]
     lin = [s for s in ast.walk(ro.node) if isinstance(s, ast.Assign)
            and ast.unparse(s.targets[0]).replace(" ", "") ==
@@ -718,8 +831,14 @@ def _j_terms(ctx: Ctx) -> None:
     ctx.need(outer is not None, "__j_from_ode_compute: loop over the rows")
     problems: list[str] = []
     iv = outer.target.id if isinstance(outer.target, ast.Name) else "i"
-    ok_it = ast.unparse(outer.iter).replace(" ", "") in (
-        f"range(1,len({ode_n}))", f"range(1,{ode_n}.shape[0])")
+    it_src = ast.unparse(inline_locals(comp.node, outer.iter)).replace(
+        " ", "")
+    # form (a): for i in range(1, len(ode)): next = ode[i]
+    # form (b): for next in ode[1:]
+    form_a = it_src in (f"range(1,len({ode_n}))",
+                        f"range(1,{ode_n}.shape[0])")
+    form_b = it_src == f"{ode_n}[1:]" and isinstance(outer.target, ast.Name)
+    ok_it = form_a or form_b
     if not ok_it:
         problems.append("rows are not scanned as i = 1 .. len(ode)-1")
     # last_row / next_row: last_row = ode[0] before, next_row = ode[i]
@@ -732,22 +851,33 @@ def _j_terms(ctx: Ctx) -> None:
                     else s.target).id == nm and s.value is not None]
     nxt = [s for s in outer.body if isinstance(s, (ast.Assign, ast.AnnAssign))
            and s.value is not None and ast.unparse(s.value).replace(
-               " ", "") == f"{ode_n}[{iv}]"]
-    next_n = (nxt[0].targets[0] if isinstance(nxt[0], ast.Assign)
-              else nxt[0].target).id if len(nxt) == 1 and outer.body[
-        0] is nxt[0] else None
+               " ", "") == f"{ode_n}[{iv}]"] if form_a else []
+    if form_b:
+        next_n = outer.target.id
+        iv = "i$"
+    else:
+        next_n = (nxt[0].targets[0] if isinstance(nxt[0], ast.Assign)
+                  else nxt[0].target).id if len(nxt) == 1 and outer.body[
+            0] is nxt[0] else None
     last_n = None
+    carry = None
     if next_n is not None:
-        tail = outer.body[-1]
-        if isinstance(tail, ast.Assign) and isinstance(
-                tail.value, ast.Name) and tail.value.id == next_n and \
-                isinstance(tail.targets[0], ast.Name):
-            last_n = tail.targets[0].id
+        for k_, st_ in enumerate(outer.body):
+            if isinstance(st_, ast.Assign) and isinstance(
+                    st_.value, ast.Name) and st_.value.id == next_n and \
+                    len(st_.targets) == 1 and isinstance(
+                    st_.targets[0], ast.Name):
+                cand_ = st_.targets[0].id
+                later = {n.id for x in outer.body[k_ + 1:]
+                         for n in ast.walk(x) if isinstance(n, ast.Name)}
+                if cand_ not in later and next_n not in later:
+                    last_n, carry = cand_, st_
+    nxt_stmt = nxt[0] if nxt else None
     pre = body[:body.index(outer)]
     init_ok = last_n is not None and any(
         ast.unparse(s.value).replace(" ", "") == f"{ode_n}[0]"
         for s in asg(pre, last_n)) and len(asg(outer.body, last_n)) == 1 \
-        and len(asg(outer.body, next_n)) == 1
+        and len(asg(outer.body, next_n)) == (0 if form_b else 1)
     if not init_ok:
         problems.append("the previous row is not carried as `last = ode[0]; "
                         "for i: next = ode[i]; ...; last = next`")
@@ -792,12 +922,12 @@ def _j_terms(ctx: Ctx) -> None:
     def scan(stmts: list[ast.stmt], guarded: str | None, e: Env) -> Env:
         nonlocal flag_n
         for k, s in enumerate(stmts):
-            if s is nxt[0] or s is outer.body[-1]:
+            if s is nxt_stmt or s is carry:
                 continue
             if isinstance(s, ast.While):
                 loops.append(_while_info(
                     ctx, comp, ev, e, s,
-                    [b for b in stmts[:k] if b is not nxt[0]],
+                    [b for b in stmts[:k] if b is not nxt_stmt],
                     guarded, last_n, dest_n))
                 # havoc the counter afterwards
                 continue
